@@ -661,6 +661,14 @@ impl<'a> R<'a> {
         }
         // R17: Box::as_mut / Box::as_ref on a declared Box-typed local are reborrows
         if (name == "as_mut" || name == "as_ref") && mc.args.is_empty() {
+            if let Expr::Field(_) = strip_paren(&mc.receiver) {
+                // a Box-typed field named in full (`self.f`)
+                let txt = norm(self.text(mc.receiver.span()));
+                if self.fc.box_receivers.iter().any(|n| *n == txt) {
+                    self.rule("R17:box-reborrow");
+                    return Some(if name == "as_mut" { format!("(&mut *{})", txt) } else { format!("(&*{})", txt) });
+                }
+            }
             if let Expr::Path(pa) = strip_paren(&mc.receiver) {
                 if let Some(id) = pa.path.get_ident() {
                     if self.fc.box_receivers.iter().any(|n| id == n) {
@@ -1525,7 +1533,7 @@ impl<'r, 'a, 'ast> Visit<'ast> for V<'r, 'a> {
                     let inner = self.r.render_block_inner(&fl.body);
                     self.r.in_foreach = save;
                     let t = format!(
-                        "{{ let mut __ci{k} = {ex};\n/*@PRE#{k}@*/ loop /*@INV#{k}@*/ {{ /*@TOP#{k}@*/\nlet __nx{k} = __ci{k}.next();\nmatch __nx{k} {{ None => {{ break; }} Some({pat}) => {{ /*@M:item@*/\n{inner}\n}} }}\n/*@BOT#{k}@*/ }} /*@POST#{k}@*/ }}",
+                        "{{ let mut __ci{k} = {ex};\n/*@PRE#{k}@*/ loop /*@INV#{k}@*/ {{ /*@TOP#{k}@*/\nlet __nx{k} = __ci{k}.next();\nmatch __nx{k} {{ None => {{ /*@M:done@*/ break; }} Some({pat}) => {{ /*@M:item@*/\n{inner}\n}} }}\n/*@BOT#{k}@*/ }} /*@POST#{k}@*/ }}",
                         k = k, ex = ex, pat = pat, inner = inner
                     );
                     self.replace(e.span(), t);
@@ -1536,7 +1544,13 @@ impl<'r, 'a, 'ast> Visit<'ast> for V<'r, 'a> {
                 self.r.loop_bodies.insert(rng(fl.body.span()));
                 let inner = self.r.render_block_inner(&fl.body);
                 self.r.in_foreach = save;
-                let (pre, src) = if self.r.is_eager_call(strip_paren(&fl.expr)) {
+                // a source that is itself a computation (`for x in obj.compute()`) is bound first, so that proof text can name it
+                let computed_source = match strip_paren(&fl.expr) {
+                    Expr::MethodCall(m) => !matches!(m.method.to_string().as_str(), "iter" | "iter_mut" | "into_iter" | "rev" | "enumerate" | "skip" | "zip" | "chain" | "map" | "filter" | "cloned" | "copied" | "keys" | "values" | "lines" | "chars" | "bytes" | "drain"),
+                    Expr::Call(_) => true,
+                    _ => false,
+                };
+                let (pre, src) = if self.r.is_eager_call(strip_paren(&fl.expr)) || computed_source {
                     (format!("let __s{} = {};\n", k, ex), format!("__s{}", k))
                 } else {
                     (String::new(), ex)
